@@ -43,7 +43,39 @@ func (p *Program) userFieldSort(name string) (string, bool) {
 	return s, ok
 }
 
+// uidWritersCarry: closed-world rule for a property whose argument runs "every function
+// that writes the session identity has clause X": a new writer of session[uid] (a new login
+// path) without one of the named clauses fails the sweep. exempt lists the packages whose
+// writers the property's statement does not speak about.
+func (v *Verifier) uidWritersCarry(label string, clauses []string, exempt ...string) {
+	v.coveredPred = func(key string) bool {
+		for _, e := range exempt {
+			if strings.HasPrefix(key, e+":") {
+				return true
+			}
+		}
+		for _, c := range clauses {
+			if v.hasClause(key, c) {
+				return true
+			}
+		}
+		return false
+	}
+	v.addEffectSweep(label, v.Prog.uidWriteSites)
+	v.coveredPred = nil
+}
+
 func (v *Verifier) addSweeps() {
+	switch v.Prop {
+	case "C03":
+		// every interactive login path consults the lock/confirm veto (remember's cookie
+		// re-authentication is not one of the flows the statement lists - the middlewares
+		// cover it; a registration creates the account it logs in)
+		v.uidWritersCarry("uid_writers_consult_veto", []string{"login_veto"}, "remember", "register")
+	case "C09":
+		// every login path announces the login (that is what starts the idle clock)
+		v.uidWritersCarry("uid_writers_announce_login", []string{"login_announced"}, "remember")
+	}
 	switch v.Prop {
 	case "C01", "C03", "C04", "C05", "C06", "C12", "C13", "C16", "C18", "C19":
 		// the frame of the event summary, checked against the handlers the library registers
@@ -57,6 +89,10 @@ func (v *Verifier) addSweeps() {
 	case "C01":
 		v.addEffectSweep("no_uncontracted_uid_write", v.Prog.uidWriteSites)
 	case "C02":
+		// every password-like login path offers the login to the 2FA hijack, or is the
+		// second-factor step itself (OAuth2 and remember logins are not password logins; a
+		// registration creates the account it logs in)
+		v.uidWritersCarry("uid_writers_pass_second_factor", []string{"hijack_fired", "second_factor_guard"}, "remember", "register", "oauth2")
 		// every writer of the SMS login keys preserves the session invariant
 		v.coveredPred = func(key string) bool { return v.hasClause(key, "sms_binding_inv") }
 		v.addEffectSweep("sms_keys_only_under_invariant", v.Prog.smsKeySites)
